@@ -21,10 +21,28 @@ CASE_PAIRS = [("userId", "userid"), ("Region", "region"), ("B", "b"), ("UID", "u
 KEYWORD_PREFIX_IDS = ["order_id", "index", "android", "notify", "iffy", "returned", "salty"]
 PY_RESERVED = ["class", "lambda", "None", "True", "import", "pass"]
 EXP_NAMES = ["exp_a", "exp_b", "checkout_test", "exp_a", "ranking_v2", "E", "exp_a"]
+# legal experiment names that coincide with names the implementation uses itself (run-time helpers of the generated code,
+# attributes and methods of the evaluator): harmless on a correct tree, a trap for shared namespaces and attribute aliasing
+RESERVED_LOOKING_NAMES = ["partial", "deterministic_choice", "choose_experiment_variant", "ExperimentConditionalFailedError", "map", "str",
+                          "recompile", "run_experiment", "_recompile_lock", "_checksum", "kwargs", "self", "code_holder", "fn_name"]
 
 STR_VALUES = ["a", "b", "c", "xyz", "", "0", "42", "u-1001", "josé", "日本", "A" * 300,
               "it's", "q\"q", "back\\slash", "new\nline", "nul\x00byte", " ", "1e5", "inf"]
 INT_VALUES = [0, 1, -1, 2, 3, 4, 5, 6, 7, 10, 17, 18, 19, 100, -100, 2 ** 31, 2 ** 53 + 1, 2 ** 64 + 3, -(2 ** 63)]
+# an int too long for int<->str conversion under the interpreter's default limit (4300 digits); written as a marker so that
+# scenarios stay JSON-serialisable, expanded by `expand_values` right before the call
+HUGE_INT_MARKER = {"$pow10": 5000}
+
+
+def expand_values(fields):
+    """{"$pow10": n} -> 10**n (recursively over dicts / lists)."""
+    if isinstance(fields, dict):
+        if set(fields) == {"$pow10"}:
+            return 10 ** int(fields["$pow10"])
+        return {k: expand_values(v) for k, v in fields.items()}
+    if isinstance(fields, list):
+        return [expand_values(v) for v in fields]
+    return fields
 FLOAT_VALUES = [0.0, -0.0, 0.5, 1.5, -2.25, 1e300, 1e-9, float("inf"), float("-inf"), float("nan"), 18.0]
 OTHER_VALUES = [True, False, None]
 
@@ -212,7 +230,7 @@ class _Builder:
 
     def build(self):
         rng, p, o = self.rng, self.p, self.opts
-        p.name = o.get("name") or rng.choice(EXP_NAMES)
+        p.name = o.get("name") or (rng.choice(RESERVED_LOOKING_NAMES) if rng.random() < o.get("p_reserved_looking", 0.04) else rng.choice(EXP_NAMES))
         ids = list(PLAIN_IDS)
         rng.shuffle(ids)
         if rng.random() < o.get("p_kwprefix", 0.04):
@@ -261,9 +279,13 @@ COMMENTS = ["// note\n", "// 'quoted' if else return\n", "/* block */\n", "/* mu
             "/*****\n * doc\n *****/\n", "//\n"]
 
 
-def render(rng, tokens, p_comment=0.04, compact=False):
-    """Join tokens with whitespace / comment trivia."""
+def render(rng, tokens, p_comment=0.04, compact=False, p_giant=0.0, p_dangling=0.0):
+    """Join tokens with whitespace / comment trivia. p_giant: one very large block comment (sources of hundreds of KB are
+    legal and cheap to lex); p_dangling: the text ends inside an unterminated block comment (the tree accepts that)."""
     out = []
+    if p_giant and rng.random() < p_giant:
+        n = rng.choice([40_000, 120_000, 300_000])
+        out.append("/* " + ("padding " * (n // 8)) + "*/\n")
     if rng.random() < 0.3 and not compact:
         out.append(rng.choice(["\n", "/* header comment */\n", "// header\n"]))
     for i, t in enumerate(tokens):
@@ -279,6 +301,8 @@ def render(rng, tokens, p_comment=0.04, compact=False):
             out.append(rng.choice(TRIVIA_SIMPLE))
     if rng.random() < 0.3 and not compact:
         out.append(rng.choice(["\n", "\n// trailing\n", " /* end */"]))
+    if p_dangling and rng.random() < p_dangling:
+        out.append(rng.choice(["\n/* todo", " /* never closed\n", "\n/*"]))
     return "".join(out)
 
 
@@ -286,7 +310,8 @@ def gen_program(rng, tid, **opts):
     """One experiment the generator intends to be grammatical."""
     b = _Builder(rng, tid, opts)
     p = b.build()
-    p.text = render(rng, p.tokens, p_comment=opts.get("p_comment", 0.04), compact=opts.get("compact", False))
+    p.text = render(rng, p.tokens, p_comment=opts.get("p_comment", 0.04), compact=opts.get("compact", False),
+                    p_giant=opts.get("p_giant", 0.01), p_dangling=opts.get("p_dangling", 0.02))
     return p
 
 
@@ -316,7 +341,7 @@ def variant_of(rng, prog, tid):
             toks.append(t)
         i += 1
     q.tokens = toks
-    q.text = render(rng, toks, compact=rng.random() < 0.5)
+    q.text = render(rng, toks, compact=rng.random() < 0.5, p_dangling=0.03)
     q.kind = "valid"
     q.note = "variant of " + prog.tid
     return q
@@ -429,7 +454,7 @@ def gen_invalid(rng, base, tid):
     q.kind = "invalid"
     toks = [_relabel(t, base.tid, tid) for t in base.tokens]
     kinds = ["delete", "duplicate", "transpose", "truncate", "illegal", "prefix", "suffix", "two_defs",
-             "empty", "reserved_name", "unclosed_comment", "unclosed_string", "shared_field", "garbage"]
+             "empty", "reserved_name", "unclosed_comment", "unclosed_string", "shared_field", "garbage", "huge_literal"]
     k = rng.choice(kinds)
     q.note = k
     if k == "delete":
@@ -469,6 +494,13 @@ def gen_invalid(rng, base, tid):
         f = base.splitters[0] if base.splitters else "uid"
         body = ["if", f, "==", "1", "{", "return", _quote(rng, tid + ".s.0"), "weighted", "1", "}"]
         toks = ["def", base.name, "{", "splitters", ":", f] + body + ["}"]
+    elif k == "huge_literal":
+        # a number too long for the interpreter's int<->str limit: the tree rejects the text (ValueError from the lexer)
+        idx = [i for i, t in enumerate(toks) if t.isdigit()]
+        if idx:
+            toks[rng.choice(idx)] = "7" * rng.choice([4301, 6000])
+        else:
+            toks.insert(len(toks) - 1, "7" * 4301)
     elif k == "garbage":
         toks = [rng.choice(["def", "{", "}", "if", "return", "weighted", "x", "1", ",", ":", "(", ")", "==", '"s"'])
                 for _ in range(rng.randint(1, 12))]
@@ -490,6 +522,8 @@ def gen_value(rng, ascii_only=False):
             v = "ascii-" + str(len(v))
         return v
     if r < 0.7:
+        if rng.random() < 0.02:
+            return dict(HUGE_INT_MARKER)
         return rng.choice(INT_VALUES)
     if r < 0.78:
         return "u-" + str(rng.randrange(10 ** 6))
